@@ -167,13 +167,25 @@ def run(ctx):
 
     fails, nevals = property_oracle(exe, strings)
     afails, nobj, nstories = audit_corpus(ctx, exe)
+    # tree level: the model's audit listing (Json/AuditRun.v: load + get_path + content_at_path + wf_tree)
+    # against the implementation's audit hook, story by story
+    tree = dict(nobj=0, nstories=0, mismatches=[], wf_false=[], fails=[])
+    try:
+        from props import c19_tree
+        tree = c19_tree.run_tree(ctx, exe)
+        for m in tree["mismatches"][:3]:
+            mismatches.append(dict(op="tree-audit", **m))
+        afails += tree["fails"]
+    except Exception as e:       # a broken model build is reported as a correspondence failure
+        mismatches.append(dict(op="tree-audit-model-does-not-evaluate", err=str(e)[-400:]))
     ctx.coverage.update(dict(
         evaluations=len(ops) + nevals + nobj, distinct_nontrivial=len(set(strings)) + nobj,
         rule="path strings from a component alphabet (names, ^, empty, numerals with leading zeros/+, "
              "overflowing numerals, non-ASCII) x rt/eqh/app ops compared model vs implementation; "
              "plus one audit line per runtime object of every corpus story (reference- and self-compiled)",
         samples=[ops[0], ops[1], ops[len(strings)], dict(audited_objects=nobj, stories=nstories)],
-        traces_validated_against_impl=len(ops), correspondence_mismatches=len(mismatches)))
+        traces_validated_against_impl=len(ops) + tree["nobj"], correspondence_mismatches=len(mismatches),
+        tree_model_objects=tree["nobj"], tree_model_stories=tree["nstories"], wf_tree_false=tree["wf_false"][:5]))
 
     allfails = fails + afails
     if allfails:
